@@ -2,7 +2,7 @@
    of content.Successors spelled out, and Predecessors in those terms. *)
 From Coq Require Import List NArith Bool.
 Import ListNotations.
-From Oras Require Import Model.GraphMem Model.Links Proofs.GraphMem.
+From Oras Require Import Base.Prelude Generated.GC07 Model.GraphMem Model.Links Proofs.GraphMem.
 
 (* n is referenced by document m, as the code reads m for its media type *)
 Definition link (m : mdoc) (n : node) : Prop :=
@@ -21,9 +21,16 @@ Proof. destruct o; simpl; split; intros H; try tauto; try discriminate.
   - inversion H. auto.
 Qed.
 
+(* the schema read from the source says what the hand-written reading says *)
+Lemma successors_of_spec m : successors_of m = successors_spec m.
+Proof.
+  destruct m as [k sub cfg ls ms bs]. destruct k; cbv -[app opt_list]; rewrite ?app_nil_r; reflexivity.
+Qed.
+
 Lemma successors_link m n : In n (successors_of m) <-> link m n.
 Proof.
-  unfold successors_of, link. destruct (d_kind m); simpl;
+  rewrite successors_of_spec.
+  unfold successors_spec, link. destruct (d_kind m); simpl;
     rewrite ?in_app_iff, ?In_opt_list; simpl; intuition auto.
 Qed.
 
@@ -39,4 +46,4 @@ Qed.
 (* a manifest listed twice, a subject that is also a layer: one predecessor entry *)
 Example link_example :
   successors_of (mkDoc KImageManifest (Some 1%N) 2%N [1%N; 3%N; 3%N] [9%N] [8%N]) = [1; 2; 1; 3; 3]%N.
-Proof. reflexivity. Qed.
+Proof. vm_compute. reflexivity. Qed.
